@@ -818,6 +818,8 @@ Qed.
 (** the recursion guard: a chain of exactly [guard_levels] nested firings runs, one more is refused and the
     statement fails without leaving a row behind *)
 Example recursion_guard_boundary :
-  (let '(d', _, o) := step (Witness2.d_rec 16) Witness2.ins1 in (o, length (Atomic.child_rows d' 0))) = (Ok 1, 16%nat)
-  /\ (let '(d', _, o) := step (Witness2.d_rec 17) Witness2.ins1 in (is_none (match o with Ok _ => None | Err _ _ _ => Some tt end), length (Atomic.child_rows d' 0))) = (false, 0%nat).
+  (let '(d', _, o) := step (Witness2.d_rec (Z.of_nat guard_levels)) Witness2.ins1 in (o, length (Atomic.child_rows d' 0)))
+    = (Ok 1, guard_levels)
+  /\ (let '(d', _, o) := step (Witness2.d_rec (Z.of_nat guard_levels + 1)) Witness2.ins1 in
+      (is_none (match o with Ok _ => None | Err _ _ _ => Some tt end), length (Atomic.child_rows d' 0))) = (false, 0%nat).
 Proof. vm_compute. split; reflexivity. Qed.
